@@ -120,7 +120,7 @@ def judge_numeric(cases: list[NumCase], rep: Report) -> None:
 
 class ExprCase:
     """one symbolic question whose answer is ``<flag...> <expr>``"""
-    __slots__ = ("key", "suffix", "impl", "info", "i0", "verdict", "detail", "model_tree", "pre", "flags")
+    __slots__ = ("key", "suffix", "impl", "info", "i0", "verdict", "detail", "model_tree", "pre", "flags", "model_pre")
 
     def __init__(self, key, suffix: str, impl, info: dict, pre: int = 0, flags: bool = False):
         self.key, self.suffix, self.impl, self.info = key, suffix, impl, info
@@ -129,6 +129,7 @@ class ExprCase:
         self.verdict = None
         self.detail = ""
         self.model_tree = None
+        self.model_pre = []
 
 
 def _expr_answer(a: str, pre: int):
@@ -161,6 +162,12 @@ def judge_expr(cases: list[ExprCase], rep: Report) -> None:
                 again.append(c)
             continue
         c.model_tree = a[1]
+        c.model_pre = a[2]
+        if c.pre >= 1 and a[2] and a[2][0] == "1":
+            # the model's run exhausted the 1000-step budget: on DAG inputs the implementation shares
+            # reduction flags between occurrences and may need fewer steps (K4 territory) - not judged
+            c.verdict = "skip:budget-exhausted-in-model"
+            continue
         why: list = []
         if impl[0] == "ok" and wire.tree_matches(a[1], impl[1], c.flags, why):
             c.verdict = "match"
